@@ -415,12 +415,49 @@ def r4_transforms(ck, cx, builds):
                       message='%s framer doubles delimiter bytes in the payload when sending but never removes the doubling when receiving: a payload containing 0x7B/0x7D is not delivered' % kind)
 
 
+def r6_header_keys_defined(ck, cx):
+    """A fresh receiver called with its default options (what `processIncomingPacket(data, callback, unit)` means) must be able
+    to deliver: on those paths every key it reads from its header dictionary is one the framer itself defines somewhere."""
+    ck.rule('R6', 'with default options, no framer reads a header key on its receive path that it never defines (e.g. the TLS framing has no unit id)')
+    from ..framermodel import framer_paths as _fpaths
+    n = 0
+    for kind in FRAMER_CLASSES:
+        cls, f, fps = _fpaths(cx, kind, default_kwargs=True)
+        defined = set()
+        for c in cx.idx.mro(cls):
+            for m in c.methods.values():
+                for nd in ast.walk(m.node):
+                    if isinstance(nd, (ast.Assign, ast.AugAssign)):
+                        tgts = nd.targets if isinstance(nd, ast.Assign) else [nd.target]
+                        for t in tgts:
+                            for el in (t.elts if isinstance(t, (ast.Tuple, ast.List)) else [t]):
+                                if isinstance(el, ast.Subscript) and U(el.value) == 'self._header' and isinstance(el.slice, ast.Constant):
+                                    defined.add(el.slice.value)
+                                if U(el) == 'self._header' and isinstance(getattr(nd, 'value', None), ast.Dict):
+                                    defined |= {k.value for k in nd.value.keys if isinstance(k, ast.Constant)}
+        for fp in fps:
+            if fp.exit and fp.exit[0] == 'exc':
+                continue
+            n += 1
+            for ev in fp.path.ev:
+                if ev.kind not in ('cond', 'call', 'assign', 'return') or not isinstance(ev.node, ast.AST):
+                    continue
+                for nd in ast.walk(ev.node):
+                    if isinstance(nd, ast.Subscript) and isinstance(nd.ctx, ast.Load) and U(nd.value) == 'self._header' and isinstance(nd.slice, ast.Constant):
+                        ck.ob('R6', f.qn, 'header key %r read on the default receive path is defined by the %s framer' % (nd.slice.value, kind),
+                              nd.slice.value in defined, detail='undefined-header-key %s %s' % (kind, nd.slice.value), loc=cx.floc(f),
+                              message='%s framer: with default options the receive path reads self._header[%r], which this framer never sets: '
+                                      'a whole, valid packet handed to a fresh receiver raises KeyError instead of being delivered' % (kind, nd.slice.value))
+    ck.floor('R6', n, 20, 'default-option receive paths')
+
+
 def run(ck, tier):
     cx = Ctx()
     builds = ck.guard(r1_build, ck, cx) or {}
     ck.guard(r2_agreement, ck, cx, builds)
     ck.guard(r3_rtu_sizes, ck, cx)
     ck.guard(r4_transforms, ck, cx, builds)
+    ck.guard(r6_header_keys_defined, ck, cx)
     ck.rule('R5', 'checksum comparison shape and CRC constants (shared with C07 R3)')
     sub = type(ck)(ck.pid, ck.tier)
     r3_shape(sub, cx)
